@@ -138,6 +138,10 @@ class CCodeMapper(SimplifyingSortingStringifyMapper):
             elif is_zero(expr.exponent - 1):
                 return self.rec(expr.base, enclosing_prec)
             elif is_zero(expr.exponent - 2):
+                from pymbolic.mapper.stringifier import PREC_PRODUCT
+                if enclosing_prec == PREC_PRODUCT:
+                    # operand of '/' or '%': the product needs parentheses
+                    enclosing_prec = PREC_PRODUCT + 1
                 return self.rec(expr.base*expr.base, enclosing_prec)
 
         return self.format("pow(%s, %s)",
